@@ -416,13 +416,16 @@ Proof.
   intros (Hc & Hl & Hs) E. unfold PInv in *; simpl in *. unfold pstep.
   destruct (todo t) as [|n] eqn:Td; simpl.
   - repeat split; auto. rewrite (sumT_upd _ _ _ _ _ E). lia.
-  - set (T := List.length (plog s)) in *.
-    assert (Ec : wrapu64 (cursor s + 1) = wrapu64 (c0 + Z.of_nat (S T))).
-    { rewrite Hc. unfold wrapu64. rewrite Zplus_mod_idemp_l. f_equal. lia. }
-    repeat split.
-    + exact Ec.
-    + cbn [seqlog]. unfold idx. rewrite <- Ec. f_equal. exact Hl.
-    + rewrite (sumT_upd _ _ _ _ _ E). simpl. lia.
+  - destruct (atadd t) eqn:At; simpl.
+    + set (T := List.length (plog s)) in *.
+      assert (Ec : wrapu64 (cursor s + 1) = wrapu64 (c0 + Z.of_nat (S T))).
+      { rewrite Hc. unfold wrapu64. rewrite Zplus_mod_idemp_l. f_equal. lia. }
+      repeat split.
+      * exact Ec.
+      * cbn [seqlog]. unfold idx. rewrite <- Ec. f_equal. exact Hl.
+      * rewrite (sumT_upd _ _ _ _ _ E). simpl. lia.
+    + (* the atomic get-or-create: nothing observable changes *)
+      repeat split; auto. rewrite (sumT_upd _ _ _ _ _ E). simpl. lia.
 Qed.
 
 Lemma PInv_init k c0 j picks : 0 <= c0 < two64 -> PInv k c0 j (pinit c0 picks).
